@@ -81,3 +81,45 @@ Theorem T01d_side_by_side_irrelevant :
       evalIdx Phi t1 r1 en = evalIdx Phi t0 r0 en /\ evalIdx Phi t0 r0 en = evalX Phi e en.
 Proof. exact side_by_side_irrelevant. Qed.
 Print Assumptions T01d_side_by_side_irrelevant.
+
+From BV Require Import Model.Stats Gen.PyEval Proofs.PyEvalP.
+
+(* T01e. The pure-Python evaluator: the get_value methods, TRANSLATED FROM /repo ON THIS RUN
+   (Gen/PyEval.v), compute on real arguments exactly what the semantics evalX assigns to the same
+   node (under the domain conditions the property states: divisor non-zero, arguments of log /
+   power positive). *)
+Theorem T01e_python_evaluator_binary : forall l r : R,
+  xbin Plus (XR l) (XR r) = XR (py_Plus l r) /\ xbin Minus (XR l) (XR r) = XR (py_Minus l r) /\
+  xbin Times (XR l) (XR r) = XR (py_Times l r) /\
+  (r <> 0%R -> xbin Divide (XR l) (XR r) = XR (py_Divide l r)) /\
+  ((0 < l)%R -> xbin Power (XR l) (XR r) = XR (py_Power l r)) /\
+  xbin BMin (XR l) (XR r) = XR (py_bioMin l r) /\ xbin BMax (XR l) (XR r) = XR (py_bioMax l r) /\
+  xbin And (XR l) (XR r) = XR (py_And l r) /\ xbin Or (XR l) (XR r) = XR (py_Or l r) /\
+  xbin Eq (XR l) (XR r) = XR (py_Equal l r) /\ xbin Ne (XR l) (XR r) = XR (py_NotEqual l r) /\
+  xbin Le (XR l) (XR r) = XR (py_LessOrEqual l r) /\ xbin Ge (XR l) (XR r) = XR (py_GreaterOrEqual l r) /\
+  xbin Lt (XR l) (XR r) = XR (py_Less l r) /\ xbin Gt (XR l) (XR r) = XR (py_Greater l r).
+Proof.
+  intros l r. repeat split; intros;
+    first [apply py_Plus_sem|apply py_Minus_sem|apply py_Times_sem|apply py_Divide_sem; assumption
+          |apply py_Power_sem; assumption|apply py_bioMin_sem|apply py_bioMax_sem|apply py_And_sem|apply py_Or_sem
+          |apply py_Equal_sem|apply py_NotEqual_sem|apply py_LessOrEqual_sem|apply py_GreaterOrEqual_sem
+          |apply py_Less_sem|apply py_Greater_sem].
+Qed.
+Print Assumptions T01e_python_evaluator_binary.
+
+Theorem T01e_python_evaluator_unary : forall (Phi : R -> R) (c : R),
+  xun Phi UMinus (XR c) = XR (py_UnaryMinus c) /\ xun Phi Exp (XR c) = XR (py_exp c) /\
+  xun Phi Sin (XR c) = XR (py_sin c) /\ xun Phi Cos (XR c) = XR (py_cos c) /\
+  ((0 < c)%R -> xun Phi Log (XR c) = XR (py_log c)) /\
+  ((0 <= c)%R -> xun Phi Logzero (XR c) = XR (py_logzero c)).
+Proof.
+  intros Phi c. repeat split; intros;
+    first [apply py_UnaryMinus_sem|apply py_exp_sem|apply py_sin_sem|apply py_cos_sem
+          |apply py_log_sem; assumption|apply py_logzero_sem; assumption].
+Qed.
+Print Assumptions T01e_python_evaluator_unary.
+
+Theorem T01e_python_evaluator_sums : forall (kids : list R) (terms : list (R * R)),
+  xsum (map XR kids) = XR (py_bioMultSum kids) /\ xcondsum (flat_vals terms) = XR (py_ConditionalSum terms).
+Proof. intros. split; [apply py_bioMultSum_sem|apply py_ConditionalSum_sem]. Qed.
+Print Assumptions T01e_python_evaluator_sums.
